@@ -334,7 +334,7 @@ def check_key_lists(ctx, which):
     """the two columns of the ordered key table as the module publishes them"""
     got = getattr(keys, which, None)
     want = T.MAJOR_KEYS if which == "major_keys" else T.MINOR_KEYS
-    ctx.check(isinstance(got, list) and list(got) == list(want), "key-table/" + which, lambda: "keys.%s = %r, expected %r" % (which, got, want))
+    ctx.check(isinstance(got, (list, tuple)) and list(got) == list(want), "key-table/" + which, lambda: "keys.%s = %r, expected %r" % (which, got, want))
     ctx.note_case(True, ["key-table"])
 
 
